@@ -23,6 +23,8 @@ from .. import asetab
 
 def _is_hamiltonian(prog: Program, sc) -> bool:
     def walk(spec):
+        if isinstance(spec, int):
+            return False
         if spec.cls.startswith("Hamiltonian"):
             return True
         return any(walk(c) for c in (spec.children or []) if not isinstance(c, int))
